@@ -309,10 +309,16 @@ impl<'de, R: ReadSlice<'de>> Deserializer<'de> for DatumDeserializer<'_, '_, R> 
 	{
 		// Allows deserializing Duration as (u32, u32, u32)
 		match *self.schema_node {
-			SchemaNode::Array(elements_schema) => visitor.visit_seq(ArraySeqAccess {
-				elements_schema: elements_schema.as_ref(),
-				block_reader: BlockReader::new(self.state, false, self.allowed_depth.dec()?),
-			}),
+			SchemaNode::Array(elements_schema) => {
+				let mut seq_access = ArraySeqAccess {
+					elements_schema: elements_schema.as_ref(),
+					block_reader: BlockReader::new(self.state, false, self.allowed_depth.dec()?),
+				};
+				let value = visitor.visit_seq(&mut seq_access)?;
+				// The visitor of a tuple does not ask for more than `len` elements
+				seq_access.end()?;
+				Ok(value)
+			}
 			SchemaNode::Duration if len == 3 => visitor.visit_seq(DurationMapAndSeqAccess {
 				duration_buf: &self.state.read_const_size_buf::<12>()?,
 			}),
